@@ -41,7 +41,7 @@ def scalar(f):
     return len(f) == 1 or f in ORDERED
 
 
-MULTI = ["3H", "2I", "5B", "64I", "2q", "IH", "QI", "Ib", "QB", "HB"]
+MULTI = ["3H", "4I", "8Q", "6B", "2I", "5B", "64I", "2q", "IH", "QI", "Ib", "QB", "HB"]
 
 
 def plan(tier, seed):
@@ -151,6 +151,17 @@ def build(case):
                     setattr(self, n, consts[n])
             self.r0 = 2
             self.exit()
+        # element access into tables the way the dispatcher does it: take
+        # the variable's address, move the pointer, store through it
+        for n, f in visible_vars(case):
+            el = table_element(n, f)
+            if el is not None:
+                k, size, marker = el
+                with getattr(self, n).get_address(None, False, False) \
+                        as (dst, _):
+                    self.r[dst] += size * k
+                    {1: self.mB, 2: self.mH, 4: self.mI,
+                     8: self.mQ}[size][self.r[dst]] = marker
         for n, f in visible_vars(case):
             if scalar(f):
                 setattr(self, "t_" + n, getattr(self, n))
@@ -166,6 +177,17 @@ def build(case):
     e = Derived(subprograms=subs)
     e.vf_consts = consts
     return e, subs, m
+
+
+def table_element(name, fmt):
+    """(index, element size, marker) written by the program into a
+    homogeneous multi-element variable, or None"""
+    if len(fmt) > 1 and fmt[:-1].isdigit() and fmt[-1] in "BHIQ":
+        n = int(fmt[:-1])
+        size = struct.calcsize(fmt[-1])
+        k = (sum(map(ord, name)) * 7) % n
+        return k, size, (0xa5 + k) & ((1 << (8 * size)) - 1) or 1
+    return None
 
 
 def visible_vars(case):
@@ -281,6 +303,20 @@ def check_case(case, res):
                 if n.startswith("t_"):
                     continue
                 got = getattr(obj, n)
+                el = table_element(n, f) if pname == "main" else None
+                if el is not None:
+                    want_t = list(vals[pname, n])
+                    want_t[el[0]] = el[2]
+                    res.count("table_elements_stored_through_a_pointer")
+                    if list(got) != want_t:
+                        res.violation(
+                            "unexplained:table-element-store",
+                            f"the program stored {el[2]} into element "
+                            f"{el[0]} of {pname}.{n} ({f}) through its "
+                            f"address; Python wrote {vals[pname, n]} "
+                            f"before and now reads {got}", case=case)
+                        return
+                    continue
                 if not same(f, got, vals[pname, n]):
                     res.violation("unexplained:variable-changed-by-run",
                                   f"{pname}.{n} ({f}) was {vals[pname, n]} "
